@@ -26,7 +26,30 @@ for name, props in cat.items():
                 print('WEAK-CONTRACT: mutant %s is not rejected by the %s check' % (name, p))
         finally:
             shutil.rmtree(d, ignore_errors=True)
+# behaviour-preserving edits: no check may report a VIOLATION on them
+hcat = json.load(open(os.path.join(V, 'harmless', 'catalogue.json'))) if os.path.exists(os.path.join(V, 'harmless', 'catalogue.json')) else {}
+for name, ent in hcat.items():
+    if name.startswith('_'):
+        continue
+    patch = os.path.join(V, 'harmless', name + '.diff')
+    for p in ent['props']:
+        if only and p != only:
+            continue
+        d = tempfile.mkdtemp(prefix='vpharm_')
+        try:
+            subprocess.run(['rsync', '-a', '--exclude', 'target', '--exclude', '.git', '/repo/', d + '/'], check=True)
+            r = subprocess.run(['patch', '-p1', '-s', '-i', patch], cwd=d, capture_output=True, text=True)
+            if r.returncode != 0:
+                res['harmless:%s/%s' % (name, p)] = 'patch-does-not-apply'
+                continue
+            q = subprocess.run([sys.executable, os.path.join(V, 'vp', 'check.py'), p, '--no-evidence'], env=dict(os.environ, VP_REPO=d), capture_output=True, text=True)
+            ok = q.returncode in ent.get('expect', [0, 2])
+            res['harmless:%s/%s' % (name, p)] = 'quiet (rc %d)' % q.returncode if ok else 'FALSE-ALARM rc %d' % q.returncode
+            if not ok:
+                print('FALSE-ALARM: behaviour-preserving edit %s makes the %s check exit %d' % (name, p, q.returncode))
+        finally:
+            shutil.rmtree(d, ignore_errors=True)
 os.makedirs(os.path.join(V, 'gen'), exist_ok=True)
 json.dump(res, open(os.path.join(V, 'gen', 'sensitivity%s.json' % ('_' + only if only else '')), 'w'), indent=1)
 k = sum(1 for v in res.values() if v == 'killed')
-print('mutants: %d killed, %d undecided, %d survived, %d other of %d' % (k, sum(1 for v in res.values() if v == 'undecided'), sum(1 for v in res.values() if v == 'SURVIVED'), sum(1 for v in res.values() if v not in ('killed', 'undecided', 'SURVIVED')), len(res)))
+print('mutants: %d killed, %d undecided, %d survived, %d other of %d' % (k, sum(1 for v in res.values() if v == 'undecided'), sum(1 for v in res.values() if v == 'SURVIVED'), sum(1 for v in res.values() if v not in ('killed', 'undecided', 'SURVIVED') and not v.startswith('quiet')), len(res)))
